@@ -27,7 +27,8 @@ func (r *counterReader) Read(p []byte) (int, error) {
 }
 
 func realEncryptor(alg int, k []byte) (key.Encryptor, error) {
-	kk := key.Key{iana.KeyParameterKty: iana.KeyTypeSymmetric, iana.KeyParameterAlg: alg, iana.SymmetricKeyParameterK: k}
+	// every key carries the same key id: an implementation must not identify key material by kid
+	kk := key.Key{iana.KeyParameterKty: iana.KeyTypeSymmetric, iana.KeyParameterAlg: alg, iana.SymmetricKeyParameterK: k, iana.KeyParameterKid: []byte("kid-shared-by-all-keys")}
 	switch {
 	case alg >= 1 && alg <= 3:
 		return aesgcm.New(kk)
